@@ -5,6 +5,8 @@ recognises its values, with exactly the contracts that C01 establishes for the r
     Exp(Log R) = R           for every R in SO(3)            (C01 c)
     Exp(-Log R) = R^T
     Log(Exp w)  = w          only when the path implies |w| < pi   (C01 b)
+    |Log R|     = arccos((tr R - 1)/2)  and  R = Rodrigues(Log R)   (definition of the logarithm; axioms for Z3)
+    Exp6(Log6 T) = T         for every T in SE(3)            (C01 c)
 
 The summary checks (by normal form) that the matrix handed to Log is orthonormal; everything else
 (TMtoTAA, TAAtoTM, LocalToGlobal, the tm constructors/operators ...) is the real code."""
@@ -32,14 +34,54 @@ def _key(M):
     return tuple((S.pkey(Sym.lift(x).n), Sym.lift(x).f) for x in M.reshape(-1))
 
 
+ORTHO_STATS = dict(exact=0, randomized=0)
+
+
 def _is_orthonormal(R):
-    RtR = symnp.dot(R.T, R)
-    for i in range(3):
-        for j in range(3):
-            d = Sym.lift(RtR[i, j]) - (1 if i == j else 0)
-            if not d.is_zero():
-                return False
-    return True
+    """side condition of the Log summary: its argument is a rotation matrix.  Exact (normal form) when the entries are
+    small; for large entries a randomized polynomial identity test on the variety of the atoms' defining relations
+    (3 points, 1e-8): a non-identity passes with probability zero up to rounding."""
+    size = sum(len(Sym.lift(x).n) for x in R.reshape(-1))
+    if size <= 600:
+        ORTHO_STATS['exact'] += 1
+        RtR = symnp.dot(R.T, R)
+        for i in range(3):
+            for j in range(3):
+                d = Sym.lift(RtR[i, j]) - (1 if i == j else 0)
+                if not d.is_zero():
+                    return False
+        return True
+    import random
+    ORTHO_STATS['randomized'] += 1
+    atoms = set()
+    for x in R.reshape(-1):
+        atoms |= Sym.lift(x).atoms()
+    rng = random.Random(12345)
+    good = 0
+    for _ in range(12):
+        pt = S.random_point(atoms, rng)
+        if pt is None:
+            continue
+        try:
+            M = [[_eval_at(Sym.lift(R[i, j]), pt) for j in range(3)] for i in range(3)]
+        except (ZeroDivisionError, KeyError):
+            continue
+        for i in range(3):
+            for j in range(3):
+                v = sum(M[k][i] * M[k][j] for k in range(3)) - (1 if i == j else 0)
+                if abs(v) > 1e-8:
+                    return False
+        good += 1
+        if good >= 3:
+            return True
+    return False
+
+
+def _eval_at(x, pt):
+    n = S.p_eval(x.n, pt)
+    if not x.f:
+        return n
+    return n / S.p_eval(x.d, pt)
 
 
 def install(env):
@@ -77,13 +119,56 @@ def install(env):
             return real_log(R)
         n = t['n']
         t['n'] += 1
-        at = [S.new_atom('Log%d_%d' % (n, i), 'var') for i in range(3)]
-        P = S.pi_atom()
-        for a in at:
-            a.axioms = [a.z <= P.z, a.z >= -P.z,
-                        at[0].z * at[0].z + at[1].z * at[1].z + at[2].z * at[2].z <= P.z * P.z]
-            a.deps = tuple(b.id for b in at if b is not a) + (P.id,)
+        # the rotation angle: |Log R| = arccos((tr R - 1)/2) =: ang, with cos ang = x and sin ang = sa >= 0, sa^2 = 1 - x^2.
+        # (own atoms instead of sym_arccos: x can be a very large rational function and 1 - x*x is never multiplied
+        # out in the normaliser; the relation is handed to Z3 over the term of x)
+        import hashlib
+        z3 = S.z3
+        hk = hashlib.md5(repr(k).encode()).hexdigest()[:10]     # Log is a function of the matrix: name by its entries
+        x = (Sym.lift(R[0, 0]) + R[1, 1] + R[2, 2] - 1) / 2
+        fresh = ('Ang_%s' % hk) not in S.ATOM_BY_NAME
+        a_at = S.new_atom('Ang_%s' % hk, 'angle', S.AngleInfo())
+        sa_at = S.new_atom('SinAng_%s' % hk, 'var')
+        at = [S.new_atom('Log_%s_%d' % (hk, i), 'var') for i in range(3)]
+        ang = Sym.atom(a_at)
+        sa = Sym.atom(sa_at)
         l = [Sym.atom(a) for a in at]
+        if fresh:
+            P = S.pi_atom()
+            a_at.nonneg = True
+            sa_at.nonneg = True
+            a_at.data.cos = x
+            a_at.data.sin = sa
+            xz = x.z()
+            base = [a_at.z >= 0, a_at.z <= P.z, sa_at.z >= 0, sa_at.z * sa_at.z + xz * xz == 1,
+                    z3.Implies(xz == 1, a_at.z == 0), z3.Implies(a_at.z == 0, xz == 1),
+                    z3.Implies(xz == -1, a_at.z == P.z), z3.Implies(a_at.z == P.z, xz == -1),
+                    sa_at.z <= a_at.z, xz >= 1 - a_at.z * a_at.z / 2]
+            xdeps = set(x.atoms()) | {P.id}
+            a_at.axioms = base
+            sa_at.axioms = base
+            a_at.deps = tuple(xdeps | {sa_at.id})
+            sa_at.deps = tuple(xdeps | {a_at.id})
+            S.add_sqrt_hint(ang)
+            # normal-form rule  l2^2 -> ang^2 - l0^2 - l1^2   (so that Norm(Log R) reduces to ang)
+            S.RULES[at[2].id] = S.psub(S.pmul(ang.n, ang.n), S.padd(S.pmul(l[0].n, l[0].n), S.pmul(l[1].n, l[1].n)))
+            ax = [at[0].z * at[0].z + at[1].z * at[1].z + at[2].z * at[2].z == a_at.z * a_at.z]
+            for a in at:
+                ax += [a.z <= P.z, a.z >= -P.z]
+            # Rodrigues: R = I + (sin ang / ang) [l] + ((1 - cos ang) / ang^2) [l]^2, stated division-free over Z3 terms
+            lz = [a.z for a in at]
+            K = [[0, -lz[2], lz[1]], [lz[2], 0, -lz[0]], [-lz[1], lz[0], 0]]
+            a2 = a_at.z * a_at.z
+            deps = set(xdeps) | {a_at.id, sa_at.id}
+            for i in range(3):
+                for j in range(3):
+                    kk = sum(K[i][kx] * K[kx][j] for kx in range(3))
+                    rij = Sym.lift(R[i, j])
+                    deps |= rij.atoms()
+                    ax.append((rij.z() - (1 if i == j else 0)) * a2 == sa_at.z * a_at.z * K[i][j] + (1 - xz) * kk)
+            for a in at:
+                a.axioms = ax
+                a.deps = tuple(deps | set(b.id for b in at if b is not a))
         so3 = np.array([[0, -l[2], l[1]], [l[2], 0, -l[0]], [-l[1], l[0], 0]])
         t['log'][k] = so3
         t['exp'][('L', at[0].id, at[1].id, at[2].id)] = R.copy()
@@ -115,7 +200,55 @@ def install(env):
             t['exp'][_key(np.asarray(R))] = v
         return R
 
+    real_exp6 = mods[0].MatrixExp6
+    real_log6 = mods[0].MatrixLog6
+
+    def MatrixLog6(T):
+        """Log6 of a composed (non-primitive) rigid transform: fresh twist V with Exp6([V]) = T  (C01 c)"""
+        T = np.asarray(T)
+        sym_entries = [x for x in T[0:3, 0:3].reshape(-1) if isinstance(x, Sym) and x.const_value() is None]
+        if not sym_entries or not _is_orthonormal(T[0:3, 0:3]):
+            return real_log6(T)
+        last = [Sym.lift(x) - c for x, c in zip(T[3, :], (0, 0, 0, 1))]
+        if any(not d.is_zero() for d in last):
+            return real_log6(T)
+        t = _tables()
+        k = ('T',) + _key(T)
+        hit = t['log'].get(k)
+        if hit is not None:
+            return hit.copy()
+        n = t['n']
+        t['n'] += 1
+        so3 = MatrixLog3(T[0:3, 0:3])
+        import hashlib
+        hk = hashlib.md5(repr(k).encode()).hexdigest()[:10]
+        at = [S.new_atom('Log6v_%s_%d' % (hk, i), 'var') for i in range(3)]
+        v = [Sym.atom(a) for a in at]
+        se3 = np.zeros((4, 4))
+        se3[0:3, 0:3] = so3
+        se3[0:3, 3] = np.array(v)
+        t['log'][k] = se3
+        t['exp'][('T', S.pkey(Sym.lift(so3[2][1]).n), S.pkey(Sym.lift(so3[0][2]).n), S.pkey(Sym.lift(so3[1][0]).n),
+                  at[0].id, at[1].id, at[2].id)] = T.copy()
+        t['uses'] += 1
+        return se3.copy()
+
+    def MatrixExp6(se3mat):
+        se3mat = np.asarray(se3mat)
+        t = _tables()
+        ids = [_atom_id(x, 1) for x in se3mat[0:3, 3]]
+        if None not in ids:
+            key = ('T', S.pkey(Sym.lift(se3mat[2][1]).n), S.pkey(Sym.lift(se3mat[0][2]).n),
+                   S.pkey(Sym.lift(se3mat[1][0]).n), ids[0], ids[1], ids[2])
+            T = t['exp'].get(key)
+            if T is not None:
+                t['uses'] += 1
+                return T.copy()
+        return real_exp6(se3mat)
+
     for m in mods:
         m.MatrixLog3 = MatrixLog3
         m.MatrixExp3 = MatrixExp3
+        m.MatrixLog6 = MatrixLog6
+        m.MatrixExp6 = MatrixExp6
     symnp.StubLog.note('summary: MatrixLog3/MatrixExp3 with the contracts proved in C01')
